@@ -665,6 +665,15 @@ structure Drain where
   ie : Nat
   deriving DecidableEq, Repr
 
+/-- `self.iter.next()` (`Range<usize>::next` on the field `iter`): the index produced, if any, and the
+drain afterwards.  A primitive of the translated code (`Generated/Core.lean`). -/
+def Drain.stepFront (d : Drain) : Option Nat × Drain :=
+  if d.is < d.ie then (some d.is, { d with is := d.is + 1 }) else (none, d)
+
+/-- `self.iter.next_back()` -/
+def Drain.stepBack (d : Drain) : Option Nat × Drain :=
+  if d.is < d.ie then (some (d.ie - 1), { d with ie := d.ie - 1 }) else (none, d)
+
 def Drain.new (sb eb : Bound) : M Drain := do
   let (s, e) ← translateRange sb eb
   let b ← getBuf
